@@ -62,7 +62,10 @@ def scenarios(quick):
     h1, h2 = C('hungarian_score', 'M', 'OUT', '100', 10.5), C('hungarian_score', 'F', 'IND', 'HJ', 1.8)
     add('hungarian', [(h1, h2), (h1, h1), (h2, h1)])
     s1, s2 = C('sportshall_score', 'SLJ', '2.10'), C('sportshall_score', '800', '150')
-    add('sportshall', [(s1, s2), (s1, s1)])
+    # the vertical jump is the one event tabulated in other units (cm): same-event pairs for it, so that per-event lazily
+    # built state is raced by two first scorings of that event (seed C16-i: a non-idempotent in-place conversion)
+    s3, s4 = C('sportshall_score', 'SHJ', '0.59'), C('sportshall_score', 'SHJ', '0.45')
+    add('sportshall', [(s1, s2), (s1, s1), (s3, s4)] if quick else [(s1, s2), (s1, s1), (s3, s4), (s3, s3), (s2, s2), (s3, s1)])
     w1, w2 = C('wma_age_factor', 'm', 50, '100'), C('wma_age_factor', 'f', 70, 'MAR')
     w3, w4 = C('wma_age_grade', 'm', 60, '5K', '20:00'), C('wma_world_best', 'f', '10K')
     w5, w6 = C('wma_age_factor', 'm', 55, '7K'), C('wma_world_best', 'm', '7K')
@@ -378,6 +381,16 @@ def candidate_points(steps, limit):
     keep.update(vis)
     keep.update(k + 1 for k in vis)
     keep.update(range(0, n + 1, max(1, n // limit)))
+    # straight-line code of the call path: the first and the last visit of EVERY distinct source line, whether or not the
+    # AST shows a shared name on it - shared state reached through a local alias (`info = db[code]; if not info.get(..)`)
+    # is invisible to the AST, and check-then-act windows are a few lines that run once (seed C16-i).  The number of
+    # distinct lines of a call is small; what is thinned are the repeated visits inside loops.
+    f2, l2 = {}, {}
+    for k, w in enumerate(steps):
+        f2.setdefault(w, k)
+        l2[w] = k
+    keep.update(f2.values())
+    keep.update(l2.values())
     return sorted(k for k in keep if 0 <= k <= n)
 
 
